@@ -8,6 +8,12 @@
 (*   scan                  one getdents batch of the opened directory      *)
 (*   iter                  recursion into the next listed child            *)
 (* ENOENT is tolerated everywhere ("somebody else removed it").            *)
+(* Permissions: `denied` (directories in which the caller may not remove   *)
+(* entries: EACCES) and `pinned` (entries of sticky directories that the    *)
+(* caller may not remove: EPERM); may_delete() answers before the type of  *)
+(* the victim is looked at.  "When remove_all succeeds the named entry no  *)
+(* longer exists" (OkMeansGone) must hold there too: an ENOTDIR from the    *)
+(* opendir step means "a non-directory that could not be unlinked".        *)
 (* C13 (concurrency clause): all callers report success, the entry is      *)
 (* gone, nothing outside the named subtree disappeared, nothing was added, *)
 (* and symlinks are unlinked, never followed.                              *)
@@ -18,10 +24,12 @@ CONSTANTS Procs, Scenario, MaxIno,
           IgnoreENOENT,      \* TRUE = the code; FALSE = mechanism removed
           NoFollowOnOpen,    \* TRUE = the code; FALSE = opendir follows a symlink
           MaxAttack,         \* 0 or 1: an attacker may once exchange the victim entry with the staged entry Scenario.swap
+          IgnoreENOTDIROnOpen,  \* FALSE = the code; TRUE: an ENOTDIR answer of the opendir step counts as "already gone" (seeded change C13e)
           AnyOrder           \* TRUE: getdents may list a directory in any order (POSIX); FALSE: by inode number (smaller graph for schedule generation)
 
-VARIABLES fs, fs0, stack, res, who, natk
-vars == <<fs, fs0, stack, res, who, natk>>
+VARIABLES fs, fs0, stack, res, who, natk,
+          denied, pinned     \* permissions of the caller(s): constant during a case
+vars == <<fs, fs0, stack, res, who, natk, denied, pinned>>
 
 Ino == 1..MaxIno
 BaseDents == {<<P, "root", R>>, <<P, "out", O>>, <<O, "secret", SECRET>>}
@@ -38,6 +46,8 @@ Init ==
     /\ fs0 = MkFs(Scenario.nodes) /\ fs = fs0
     /\ stack = [p \in Procs |-> << Frame(Scenario.dir, Scenario.name) >>]
     /\ res = [p \in Procs |-> "running"] /\ who = "" /\ natk = 0
+    /\ denied = (IF "denied" \in DOMAIN Scenario THEN Scenario.denied ELSE {})
+    /\ pinned = (IF "pinned" \in DOMAIN Scenario THEN Scenario.pinned ELSE {})
 
 Top(p) == stack[p][Len(stack[p])]
 SetTop(p, f) == [stack EXCEPT ![p] = [@ EXCEPT ![Len(@)] = f]]
@@ -53,6 +63,11 @@ Return(p, r) ==
     ELSE \* error propagates: the whole call fails (`?`)
         /\ res' = [res EXCEPT ![p] = r] /\ stack' = [stack EXCEPT ![p] = <<>>]
 
+\* may_delete(): the permission answers come before the type checks (EISDIR / ENOTDIR / ENOTEMPTY), after the lookup (ENOENT)
+MayNot(f, d, n) == IF ~IsDir(f, d) \/ n \in {".", ".."} \/ ~HasChild(f, d, n) THEN "" ELSE IF d \in denied THEN "EACCES" ELSE IF Child(f, d, n) \in pinned THEN "EPERM" ELSE ""
+UnlinkP(f, d, n) == IF MayNot(f, d, n) # "" THEN [res |-> Err(MayNot(f, d, n)), fs |-> f] ELSE Unlinkat(f, d, n)
+RmdirP(f, d, n)  == IF MayNot(f, d, n) # "" THEN [res |-> Err(MayNot(f, d, n)), fs |-> f] ELSE Rmdirat(f, d, n)
+
 \* children of a directory as a sequence ordered by inode number (one getdents batch)
 RECURSIVE SortedSeq(_)
 SortedSeq(S) == IF S = {} THEN <<>> ELSE LET m == Min(S) IN <<m>> \o SortedSeq(S \ {m})
@@ -64,11 +79,11 @@ Step(p) ==
     /\ stack[p] # <<>>
     /\ LET f == Top(p) IN
        CASE f.pc = "unlink" ->
-              LET r == Unlinkat(fs, f.d, f.n) IN
+              LET r == UnlinkP(fs, f.d, f.n) IN
               IF r.res.ok THEN fs' = r.fs /\ Return(p, "ok")
               ELSE fs' = fs /\ stack' = SetTop(p, [f EXCEPT !.pc = "rmdir", !.e1 = r.res.err]) /\ UNCHANGED res
          [] f.pc = "rmdir" ->
-              LET r == Rmdirat(fs, f.d, f.n)
+              LET r == RmdirP(fs, f.d, f.n)
                   e == IF r.res.ok THEN "ok" ELSE IF r.res.err = "ENOTDIR" THEN f.e1 ELSE r.res.err IN
               IF r.res.ok THEN fs' = r.fs /\ Return(p, "ok")
               ELSE IF f.final THEN fs' = fs /\ Return(p, e)
@@ -80,12 +95,12 @@ Step(p) ==
               /\ IF ~o.ok THEN Return(p, o.err)
                  ELSE IF IsLnk(fs, o.ino) THEN
                       \* O_DIRECTORY|O_NOFOLLOW on a symlink: do_open() answers ENOTDIR before may_open() could say ELOOP
-                      (IF NoFollowOnOpen THEN Return(p, "ENOTDIR")
+                      (IF NoFollowOnOpen THEN Return(p, IF IgnoreENOTDIROnOpen THEN "ok" ELSE "ENOTDIR")
                        ELSE \* a following open lands on the link's target (relative to the link's directory, on the host)
                             LET k == KWalk(fs, P, f.d, Norm(fs.body[o.ino]).comps, 0, [follow |-> TRUE, dir |-> FALSE, opath |-> TRUE, nosym |-> FALSE], 40) IN
                             IF k.ok /\ IsDir(fs, k.ino) THEN stack' = SetTop(p, [f EXCEPT !.pc = "scan", !.sub = k.ino]) /\ UNCHANGED res
                             ELSE Return(p, "ENOTDIR"))
-                 ELSE IF ~IsDir(fs, o.ino) THEN Return(p, "ENOTDIR")
+                 ELSE IF ~IsDir(fs, o.ino) THEN Return(p, IF IgnoreENOTDIROnOpen THEN "ok" ELSE "ENOTDIR")
                  ELSE stack' = SetTop(p, [f EXCEPT !.pc = "scan", !.sub = o.ino]) /\ UNCHANGED res
          [] f.pc = "scan" ->
               /\ fs' = fs /\ UNCHANGED res
@@ -97,7 +112,7 @@ Step(p) ==
               /\ IF f.todo = <<>> THEN stack' = SetTop(p, [f EXCEPT !.pc = "scan"])
                  ELSE stack' = [stack EXCEPT ![p] = Append([@ EXCEPT ![Len(@)] = [f EXCEPT !.todo = Tail(f.todo)]], Frame(f.sub, Head(f.todo)))]
     /\ who' = p
-    /\ UNCHANGED <<fs0, natk>>
+    /\ UNCHANGED <<fs0, natk, denied, pinned>>
 
 \* the attacker swaps the victim entry with a staged object (e.g. a symlink pointing outside)
 Attack ==
@@ -105,7 +120,7 @@ Attack ==
     /\ LET r == Renameat(fs, Scenario.dir, Scenario.name, Scenario.swap[1], Scenario.swap[2], "EXCHANGE") IN
        r.res.ok /\ fs' = r.fs
     /\ natk' = natk + 1 /\ who' = "attacker"
-    /\ UNCHANGED <<fs0, stack, res>>
+    /\ UNCHANGED <<fs0, stack, res, denied, pinned>>
 
 Next == (\E p \in Procs : Step(p)) \/ Attack
 Spec == Init /\ [][Next]_vars
@@ -119,5 +134,9 @@ OnlySubtreeGone == natk = 0 => (fs.dents \subseteq fs0.dents /\ (fs0.dents \ fs.
 \* under attack: whatever disappears was inside the root (the host secret next to the root survives)
 OutsideUntouched == \A d \in fs0.dents : d[1] \notin ReachFrom(fs0, {R}) /\ d[3] # R => d \in fs.dents
 WholeSubtreeGone == (AllDone /\ natk = 0) => Subtree \cap fs.dents = {}
-TypeOK == \A p \in Procs : res[p] \in {"running", "ok", "ENOENT", "ENOTDIR", "ENOTEMPTY", "ELOOP", "EISDIR", "EINVAL"}
+TypeOK == \A p \in Procs : res[p] \in {"running", "ok", "ENOENT", "ENOTDIR", "ENOTEMPTY", "ELOOP", "EISDIR", "EINVAL", "EACCES", "EPERM"}
+\* C13, with or without permission: a caller that reports success leaves no entry of that name behind (no attacker: nobody re-creates it)
+OkMeansGone == (AllDone /\ natk = 0 /\ \E p \in Procs : res[p] = "ok") => ~HasChild(fs, Scenario.dir, Scenario.name)
+\* ... and a caller without the permission to remove the entry reports an error
+DeniedMeansError == (AllDone /\ natk = 0 /\ HasChild(fs, Scenario.dir, Scenario.name)) => \A p \in Procs : res[p] # "ok"
 =============================================================================
